@@ -158,6 +158,16 @@ class Spell:
             return False
         return self.pick(list(range(k))) == 0
 
+    def inname(self):
+        """a comment between the two tokens of ONE simple selector (':' name, '.' name, prefix '|' name), about 1 in 12 times;
+        drawn from a stream of its own so that the other spelling choices of a seed stay what they were"""
+        if not self.seed:
+            return ''
+        self.m = getattr(self, 'm', 0) + 1
+        x = (self.seed * 2246822519 + self.m * 3266489917) & 0xFFFFFFFF
+        x ^= x >> 15
+        return ['/**/', '/*c*/'][x & 1] if (x >> 3) % 12 == 0 else ''
+
 
 WS = [' ', ' ', '  ', '\n', '\t', ' /*c*/ ', '\r\n', '/*c*/ ']
 OPTWS = ['', '', ' ', ' /*c*/ ', '\n', '/*c*/']
@@ -205,12 +215,12 @@ def render_part(p, sp, prefixmap=None):
     if k == 'id':
         return '#' + esc_ident(p['v'], sp)
     if k == 'class':
-        return '.' + esc_ident(p['v'], sp)
+        return '.' + sp.inname() + esc_ident(p['v'], sp)
     if k == 'type':
         name = p['name'] if p['name'] == '*' else esc_ident(p['name'], sp)
         if p['ns'] is None:
             return name
-        return p['ns'] + '|' + name
+        return p['ns'] + (sp.inname() if p['ns'] else '') + '|' + sp.inname() + name
     if k == 'attr':
         w = lambda: sp.pick(OPTWS)  # noqa: E731
         name = (p['ns'] + '|' if p['ns'] is not None else '') + p['name']
@@ -226,7 +236,7 @@ def render_part(p, sp, prefixmap=None):
             out += p['op'] + w() + val + w()
         return out + ']'
     if k == 'pc':
-        return ':' + mixcase(p['name'], sp)
+        return ':' + sp.inname() + mixcase(p['name'], sp)
     if k == 'pcf':
         w = lambda: sp.pick(OPTWS)  # noqa: E731
         arg = p['arg']
@@ -234,10 +244,10 @@ def render_part(p, sp, prefixmap=None):
             arg = arg.replace('+', ' + ') if '+' in arg[1:] else arg
         if p['argkind'] == 'anb' and sp.chance(4):
             arg = arg.upper()
-        return ':' + mixcase(p['name'], sp) + '(' + w() + arg + w() + ')'
+        return ':' + sp.inname() + mixcase(p['name'], sp) + '(' + w() + arg + w() + ')'
     if k == 'not':
         w = lambda: sp.pick(OPTWS)  # noqa: E731
-        return ':' + mixcase('not', sp) + '(' + w() + render_part(p['arg'], sp) + w() + ')'
+        return ':' + sp.inname() + mixcase('not', sp) + '(' + w() + render_part(p['arg'], sp) + w() + ')'
     raise ValueError(k)
 
 
@@ -248,7 +258,7 @@ def render_compound(c, sp):
     for p in c['parts']:
         out += render_part(p, sp)
     if c['pe']:
-        out += ':' * c['pe']['colons'] + mixcase(c['pe']['name'], sp)
+        out += ':' * c['pe']['colons'] + sp.inname() + mixcase(c['pe']['name'], sp)
     return out
 
 
